@@ -71,13 +71,6 @@ func Run(c *hx.Ctx) {
 		r.eval(&rin, true)
 		return
 	}
-	for _, raw := range c.CorpusInputs() {
-		var in input
-		if jsonUnmarshal(raw, &in) == nil && in.Kind != "" {
-			r.eval(&in, true)
-		}
-	}
-
 	as := []*acct{newAcct(c), newAcct(c), newAcct(c), newAcct(c)}
 	ek := ethKey(c)
 
@@ -116,6 +109,17 @@ func Run(c *hx.Ctx) {
 		_, raw := genEip(c, ek, sp)
 		eipSigned = append(eipSigned, len(valids))
 		valids = append(valids, &validTx{label: "eip155", raw: raw})
+	}
+	var bs [][]byte
+	for _, v := range valids {
+		bs = append(bs, v.raw)
+	}
+	registerBases(c, bs)
+	for _, raw := range c.CorpusInputs() {
+		var in input
+		if jsonUnmarshal(raw, &in) == nil && in.Kind != "" {
+			r.eval(&in, true)
+		}
 	}
 	for i, v := range valids {
 		res := r.eval(&input{Kind: "deser", Label: "valid:" + v.label, Buf: hx.Hex(v.raw), Real: i%3 == 0 && len(v.raw) < 400}, true)
